@@ -21,7 +21,7 @@ import time
 from . import valcodec
 from .net import Net, BUS
 
-STREAMS = ['net-exhaustive', 'net-random', 'net-revisions', 'net-spy', 'net-corpus']
+STREAMS = ['net-exhaustive', 'net-random', 'net-revisions', 'net-deadlines', 'net-spy', 'net-corpus']
 THEOREMS = ['link_refinement', 'link_refinement_framing_laws', 'link_refinement_txdbus_framing',
             'call_stage_invariant', 'call_in_exactly_one_stage', 'queues_hold_only_issued_calls',
             'C11_end_to_end', 'quiescence_reachable', 'C11_completion_always_reachable',
@@ -258,6 +258,13 @@ def gen_scenario(rng, small=False):
             for q in range(rng.choice([1, 2]) if small else rng.choice([1, 2, 3])):
                 methods.append(['m%d' % uid, rng.choice(sigs), rng.choice(sigs), rng.random() < 0.4])
                 uid += 1
+            if not small and rng.random() < 0.15:
+                # a USER method named like a member of a standard interface (Peer.Ping, Introspectable.Introspect,
+                # ObjectManager.GetManagedObjects): through a proxy - explicit or introspected, with or without
+                # `interface=` - it is the user's method that must run, not the handler's built-in answer
+                nm = rng.choice(['Ping', 'Introspect', 'GetManagedObjects'])
+                if not any(m[0] == nm for i2 in ifaces for m in i2['methods']):
+                    methods.append([nm, rng.choice(sigs), rng.choice(sigs), False])
             ifaces.append({'name': 'org.t.I%d_%d' % (e, k), 'methods': methods})
         if not small and len(ifaces) == 2 and rng.random() < 0.5:
             # the same member name on both interfaces (needs the `interface=` keyword or picks the first)
@@ -283,6 +290,9 @@ def gen_scenario(rng, small=False):
         spec = exports[ex]
         iface = rng.choice(spec['ifaces'])
         meth = rng.choice(iface['methods'])
+        std = [(i2, m) for i2 in spec['ifaces'] for m in i2['methods'] if m[0] in ('Ping', 'Introspect', 'GetManagedObjects')]
+        if std and rng.random() < 0.6:
+            iface, meth = rng.choice(std)
         how = rng.choice(['explicit', 'introspect'] if small else ['explicit', 'explicit', 'introspect', 'introspect', 'byname'])
         wrong = None
         r = rng.random()
@@ -388,6 +398,30 @@ def gen_scenario(rng, small=False):
             if rng.random() < 0.5:
                 plans[0][rng.randrange(len(plans[0]))] = 'relay'
     return scn
+
+
+def gen_deadline_scenario(rng):
+    """Several calls in flight on ONE connection, at least one with `timeout=`; the exported methods return
+    Deferreds that the harness fires whenever the scheduler says - possibly after the clock has passed the
+    deadline.  A call whose deadline passed fails with TimeOut once; its late reply must be ignored and must not
+    disturb the other calls, which complete with their values."""
+    n = rng.choice([2, 2, 3])
+    exporter = rng.randrange(n)
+    caller = rng.choice([c for c in range(n) if c != exporter] or [exporter])
+    methods = [['m%d' % k, rng.choice(SIG_POOL), rng.choice(SIG_POOL), False] for k in range(3)]
+    exports = [{'client': exporter, 'path': '/dl', 'ifaces': [{'name': 'org.t.Slow', 'methods': methods}]}]
+    calls = []
+    for k in range(rng.choice([2, 3])):
+        m = rng.choice(methods)
+        call = {'caller': caller, 'export': 0, 'iface': 'org.t.Slow', 'member': m[0],
+                'how': rng.choice(['explicit', 'introspect']), 'wrong': None, 'kw': None, 'bad_args': False,
+                'order': 'decl', 'args': [valcodec.to_line(x) for x in gen_body(rng, m[1])]}
+        if k == 0 or rng.random() < 0.4:
+            call['timeout'] = 30
+        calls.append(call)
+    plans = [[rng.choice(['defer-value', 'defer-value', 'defer-raise', 'value']) for _ in range(4)]]
+    return {'n': n, 'exports': exports, 'calls': calls, 'plans': plans, 'vseed': rng.randrange(10**9),
+            'family': 'deadlines'}
 
 
 def gen_revision_scenario(rng):
@@ -521,11 +555,12 @@ class Chooser:
 class Run:
     """One execution of a scenario on the real code under one schedule."""
 
-    def __init__(self, scn, chooser, message_granular, catch_all=False):
+    def __init__(self, scn, chooser, message_granular, catch_all=False, advance=False):
         self.scn = scn
         self.chooser = chooser
         self.granular = message_granular
         self.catch_all = catch_all
+        self.advance = advance        # may the scheduler let the clock pass the deadlines of `timeout=` calls
         self.lines = []          # model input lines
         self.expect = []         # expected model output per line (from the implementation)
         self.problems = []       # oracle findings: (key, what, observed, expected)
@@ -880,6 +915,8 @@ class Run:
         if kind == 'ok':
             return 'val,' + (tok(val) if val is not None else 'N')
         e = val.value
+        if isinstance(e, error.TimeOut):
+            return 'timeout'
         if isinstance(e, error.RemoteError):
             if str(e.errName).startswith('Unexpected return value signature'):
                 return 'sigMismatch'
@@ -1182,8 +1219,30 @@ class Run:
         rec['resolved'] = True
 
     # -------------------------------------------------------------- the schedule
+    def do_advance(self):
+        """The reactor's clock passes every deadline now set: `_onMethodTimeout` runs for each call that is still
+        pending.  In the model: one `expire c serial` step per call whose Deferred failed with TimeOut."""
+        net = self.net
+        mark = len(net.log)
+        net.clock.advance(10**6)
+        entries = net.log[mark:]
+        del net.log[mark:]
+        for e in entries:
+            if e[0] == 'done' and e[3] == 'fail':
+                call = self.calls[e[2]]
+                call['expired'] = True
+                self.steps.append('X%d' % call['caller'])
+                self.lines.append('expire %d %d' % (call['caller'], call['serial']))
+                self.expect.append('done(%d,%s)' % (call['serial'], self.outcome_text(e[3], e[4])))
+            else:
+                self.lines.append('quiescent')
+                self.expect.append('unexpected event while the clock advanced: %r' % (e[:2],))
+        self.track(entries)
+
     def options(self):
         opts = [('app', a) for a in self.actions]
+        if self.advance and self.net.clock.getDelayedCalls():
+            opts.append(('advance',))
         for i, ln in enumerate(self.net.links):
             if ln.dead:
                 continue
@@ -1215,7 +1274,9 @@ class Run:
                 break
             idx, nb = self.chooser.pick(opts)
             o = opts[idx]
-            if o[0] == 'app':
+            if o[0] == 'advance':
+                self.do_advance()
+            elif o[0] == 'app':
                 a = o[1]
                 self.actions.remove(a)
                 if a[0] == 'getproxy':
@@ -1307,6 +1368,14 @@ class Run:
                 continue
             if len(comps) > 1:
                 self.flag('completed-twice', 'a proxy call completed %d times' % len(comps))
+                continue
+            if call.get('expired'):
+                # its deadline passed while it was pending: TimeOut, once; the late reply must be ignored (judged
+                # through the OTHER calls of that connection, which must still complete with their values)
+                from txdbus import error as _e
+                if comps[0][0] != 'fail' or not isinstance(comps[0][1].value, _e.TimeOut):
+                    self.flag('result-differs', 'a call whose deadline passed completed otherwise: %s'
+                              % self.outcome_text(*comps[0]), observed=self.outcome_text(*comps[0]), expected='TimeOut')
                 continue
             if call['wrong']:
                 continue            # deliberately wrong declaration: nothing more is demanded
@@ -1412,12 +1481,12 @@ def exhaustive_runs(scn, limit, deadline=None):
     return runs, complete
 
 
-def random_run(scn, seed, granular=False, catch_all=False):
+def random_run(scn, seed, granular=False, catch_all=False, advance=0):
     rng = random.Random('sched/%r' % (seed,))
 
     def fresh(opts):
         # favour deliveries slightly less than application actions early on, so that calls overlap
-        ws = [3 if o[0] == 'app' else 2 for o in opts]
+        ws = [3 if o[0] == 'app' else (advance if o[0] == 'advance' else 2) for o in opts]
         idx = rng.choices(range(len(opts)), weights=ws)[0]
         mode = rng.random()
         if mode < 0.3:
@@ -1432,14 +1501,14 @@ def random_run(scn, seed, granular=False, catch_all=False):
             nb = 10**9
         return idx, nb
     ch = Chooser([], fresh)
-    r = Run(scn, ch, message_granular=granular, catch_all=catch_all)
+    r = Run(scn, ch, message_granular=granular, catch_all=catch_all, advance=advance > 0)
     r.execute()
     return r
 
 
-def replay_run(scn, choices, granular):
+def replay_run(scn, choices, granular, advance=False):
     ch = Chooser(choices, lambda opts: (0, None))
-    r = Run(scn, ch, message_granular=granular)
+    r = Run(scn, ch, message_granular=granular, advance=advance)
     r.execute()
     return r
 
@@ -1452,7 +1521,7 @@ def report(ctx, stream, runs):
     out = ctx.model(lines)
     pos = 0
     for r in runs:
-        inp = {'scenario': r.scn, 'choices': r.chooser.taken, 'granular': r.granular}
+        inp = {'scenario': r.scn, 'choices': r.chooser.taken, 'granular': r.granular, 'advance': r.advance}
         ctx.case(stream, sample={'scenario': r.scn, 'schedule': ''.join(r.steps)}, nontrivial=r.invoked > 0)
         ctx.impl_trace()
         ctx.stat('clients=%d' % r.scn['n'])
@@ -1467,6 +1536,8 @@ def report(ctx, stream, runs):
                 ctx.stat('destination=well-known-name')
             if c.get('timeout'):
                 ctx.stat('timeout=given')
+            if c.get('expired'):
+                ctx.stat('timeout=deadline-passed')
             if c.get('refuse'):
                 ctx.stat('refuse=' + c['refuse'])
             ctx.stat('issue=' + str(c.get('issue', '?')).split(' ')[0])
@@ -1490,7 +1561,7 @@ def run(ctx):
     runs = []
     for name, case in ctx.corpus():
         inp = case.get('input', case)
-        runs.append(replay_run(inp['scenario'], inp.get('choices', []), inp.get('granular', True)))
+        runs.append(replay_run(inp['scenario'], inp.get('choices', []), inp.get('granular', True), inp.get('advance', False)))
     if runs:
         report(ctx, 'net-corpus', runs)
     else:
@@ -1527,6 +1598,12 @@ def run(ctx):
         scn = gen_revision_scenario(rng)
         batch.append(random_run(scn, (ctx.seed, 'rev', k, rng.random())))
     report(ctx, 'net-revisions', batch)
+    # ---- deadlines: the clock may pass the deadline of a `timeout=` call while other calls are in flight
+    batch = []
+    for k in range(ctx.scale(quick=60, thorough=500)):
+        scn = gen_deadline_scenario(rng) if k % 3 else gen_scenario(rng)
+        batch.append(random_run(scn, (ctx.seed, 'dl', k, rng.random()), advance=2))
+    report(ctx, 'net-deadlines', batch)
     # ---- the same with a third party holding a catch-all match rule
     batch = []
     for k in range(ctx.scale(quick=40, thorough=400)):
@@ -1547,5 +1624,5 @@ def replay(ctx, data):
     if inp is None:
         ctx.note('replay file names no input (a theorem/build obligation): nothing to re-run')
         return
-    r = replay_run(inp['scenario'], inp.get('choices', []), inp.get('granular', True))
+    r = replay_run(inp['scenario'], inp.get('choices', []), inp.get('granular', True), inp.get('advance', False))
     report(ctx, 'net-corpus', [r])
